@@ -33,7 +33,8 @@ def main():
         ties_broken.append('translator:' + b)
         log(b)
     # 2. prove + model
-    targets = ['theories/Extract/Extract.vo']
+    # every extraction target of the development (area drivers go stale otherwise when Gen/Tables.v is regenerated)
+    targets = [l.strip()[:-2] + '.vo' for l in open(os.path.join(engine.COQ, 'FILES')) if l.strip().startswith('theories/Extract/Extract')]
     pfile = os.path.join(engine.COQ, 'theories', 'Properties', pid + '.v')
     if os.path.exists(pfile):
         targets.append('theories/Properties/%s.vo' % pid)
